@@ -48,8 +48,9 @@ class Plans(object):
 def mask_cause(x):
     """engine-generated Cause texts are not constrained by any property: mask them in data"""
     if isinstance(x, dict):
-        if "Error" in x and isinstance(x.get("Cause"), str) and set(x) <= {"Error", "Cause"}:
-            return {"Error": x["Error"], "Cause": "<cause>"}
+        if "Error" in x and isinstance(x.get("Cause"), str):
+            # an Error Output (possibly with other members placed beside it later)
+            return {k: ("<cause>" if k == "Cause" else mask_cause(v)) for k, v in x.items()}
         return {k: mask_cause(v) for k, v in x.items()}
     if isinstance(x, list):
         return [mask_cause(v) for v in x]
